@@ -661,6 +661,26 @@ theorem rotation_matrix_full_holds (C : Cmp R) (hlt : ∀ a b, C.lt a b = decide
   · exact branch2_so3 a h h2 _ (key _ hg).1 (key _ hg).2
   · exact branch3_so3 a h h2 _ (key _ hg).1 (key _ hg).2
 
+/-- the quaternion `rotation()` returns for a proper rotation matrix is a UNIT quaternion (so `matrix()` of it is the
+rotation it represents, `quat_matrix_rotates`, and the conversions that assume a unit quaternion apply to it) -/
+theorem rotation_unit_so3 (C : Cmp R) (hlt : ∀ a b, C.lt a b = decide (a < b))
+    (hsqrt : ∀ z, 0 ≤ z → C.sqrt z * C.sqrt z = z) (a : Nat → Nat → R)
+    (ho : toM3 a * (toM3 a).transpose = 1) (hd : (toM3 a).det = 1) : UnitQuat (Gen.M4.rotation (fld R) C a) := by
+  have h := so3_rel a ho hd
+  have h2 : (2 : R) ≠ 0 := two_ne_zero
+  have key : ∀ z : R, 1 ≤ z → C.sqrt z * C.sqrt z = z ∧ C.sqrt z ≠ 0 := by
+    intro z hz
+    have hh := hsqrt z (by linarith)
+    refine ⟨hh, ?_⟩
+    intro e
+    rw [e] at hh
+    linarith
+  rcases rotation_selects_gen C hlt a with ⟨e, hg⟩ | ⟨e, hg⟩ | ⟨e, hg⟩ | ⟨e, hg⟩ <;> rw [e]
+  · exact branch0_unit a h h2 _ (key _ hg).1 (key _ hg).2
+  · exact branch1_unit a h h2 _ (key _ hg).1 (key _ hg).2
+  · exact branch2_unit a h h2 _ (key _ hg).1 (key _ hg).2
+  · exact branch3_unit a h h2 _ (key _ hg).1 (key _ hg).2
+
 end axisangle
 
 /-- each branch on its own, over any field with `2 ≠ 0` and without any order: on a proper rotation matrix, the branch
